@@ -59,6 +59,13 @@ def reach(m, fn):
                 g = n
             elif isinstance(n, ast.Name) and isinstance(n.ctx, ast.Load) and n.id in hs:
                 g = hs[n.id]
+            elif isinstance(n, ast.Name) and isinstance(n.ctx, ast.Load) and n.id in getattr(m, "classes", {}):
+                # a class of the module: its methods work for whoever uses it
+                for meth in m.classes[n.id].body:
+                    if isinstance(meth, (ast.FunctionDef, ast.AsyncFunctionDef)) and id(meth) not in seen:
+                        seen.add(id(meth))
+                        out.append(meth)
+                        stack.append(meth)
             if g is not None and id(g) not in seen:
                 seen.add(id(g))
                 out.append(g)
@@ -242,6 +249,8 @@ def _lazy_state(E, fn):
 def _string_roots(fn):
     """maximal string-building expressions of a function (docstrings excluded)"""
     roots = {}
+    bound_formats = {t.id for n in walk_no_nested(fn) if isinstance(n, ast.Assign) and isinstance(n.value, ast.Attribute) and n.value.attr == "format"
+                     for t in n.targets if isinstance(t, ast.Name)}
     for n in walk_no_nested(fn):
         cand = None
         if isinstance(n, ast.JoinedStr):
@@ -253,6 +262,8 @@ def _string_roots(fn):
             cand = n
         elif isinstance(n, ast.Call) and isinstance(n.func, ast.Name) and n.func.id == "format" and len(n.args) == 2:
             cand = n
+        elif isinstance(n, ast.Call) and isinstance(n.func, ast.Name) and n.func.id in bound_formats:
+            cand = n                    # fmt = "{:16.9E}".format ... fmt(x)
         elif isinstance(n, ast.Name) and isinstance(n.ctx, ast.Load):
             cand = n if getattr(n, "_c13_modconst", False) and not isinstance(parent(n), ast.arguments) else None
         if cand is None:
@@ -588,10 +599,10 @@ def to_lines(toks):
                     lines.append([])
                 if sg:
                     lines[-1].append(("lit", sg, t[2]))
-        elif t[0] == "vec":
+        elif t[0] == "vec" or (t[0] == "each" and _line_block(t)):
             if lines[-1]:
                 lines.append([])
-            lines[-1].append(t)
+            lines[-1].append(t if t[0] == "vec" else ("looplines", t))
             lines.append([])
         else:
             lines[-1].append(t)
@@ -599,6 +610,16 @@ def to_lines(toks):
     if term:
         lines.pop()
     return lines, term
+
+
+def _line_block(t):
+    """a loop each pass of which writes exactly one complete line (text ... newline)"""
+    alts = t[2]
+    if len(alts) != 1 or not alts[0]:
+        return False
+    toks = alts[0]
+    nl = sum(x[1].count("\n") for x in toks if x[0] == "lit")
+    return toks[-1][0] == "lit" and toks[-1][1].endswith("\n") and nl == 1 and all(x[0] in ("lit", "fmt") for x in toks)
 
 
 def _pair_source(args, head, N):
@@ -688,6 +709,8 @@ def _tabled1(ctx):
     for e in data_events:
         vals, fine = _arm_value(X, e.facts, (16, 32))
         reach |= vals
+        if not fine and _escapes(E, form, e):
+            fine = None
         if fine is None:
             g.unknown({"a test on the rendered length that cannot be evaluated": [show(t) for t, _ in e.facts if M.mentions(t, X)][:3]}, e.node)
         elif not fine:
@@ -707,8 +730,52 @@ def _tabled1(ctx):
         # where the vectorised write stops (the same extent on every path of the arm)
         ups = set()
         nvec = 0
+        def extent_ok(u, facts):
+            """the full lines stop at a multiple of the pairs per line"""
+            lo_, hi_ = M.bounds(M.mod(u, per), facts)
+            if not (lo_ == 0 and hi_ == 0):
+                w = _witness([("len", ("sym", "t"))], facts, lambda a_, u=u: M.lin_eval(M.mod(u, per), a_) not in (None, 0), ranges={("len", ("sym", "t")): (1, 48)})
+                if w is not None:
+                    inter.bad({"upper bound": show(u), "not a multiple of the stride for": {show(k): v for k, v in w.items()}})
+                else:
+                    inter.unknown(f"upper bound {show(u)} is not shown to be a multiple of {per}")
         for s, (lines, term) in arm:
             for ln in lines:
+                if ln and ln[0][0] == "looplines":
+                    # the full lines written one by one in a loop: head + the pairs of the line + newline
+                    each = ln[0][1]
+                    hd, toks = each[1], each[2][0]
+                    nvec += 1
+                    node_ = getattr(hd, "node", None)
+                    line.at(node_), head.at(node_), inter.at(node_)
+                    tail = toks[-1][1][:-1]
+                    toks = list(toks[:-1]) + ([("lit", tail, toks[-1][2])] if tail else [])
+                    cl = _counted_loop_step(hd)
+                    if not toks or toks[0][0] != "lit" or not all(x[0] == "fmt" and x[1] == form and len(x[2]) == 2 for x in toks[1:]) or cl is None:
+                        line.unknown(_show_line(list(each[2][0])))
+                        continue
+                    h, pairs = toks[0][1], toks[1:]
+                    headtext = headtext or h[:8]
+                    if len(h) != 8 or len(pairs) != per:
+                        line.bad({"line": _show_line(list(each[2][0])), "pairs on the line": len(pairs)})
+                    if not (h[:1] in ("*", " ", "+") and (h[:1] == "*") == (pairw == 32)):
+                        head.bad(repr(h))
+                    var, lo_v, hi_v, step_v = cl
+                    good = True
+                    for i_, x in enumerate(pairs):
+                        for a_, want_base in zip(x[2], ("t", "d")):
+                            if not (isinstance(a_, tuple) and a_[:1] == ("elem",) and M.origin(a_[1])[:1] == ("sym",) and M.origin(a_[1])[1] in ("t", "d")
+                                    and (isinstance(a_[2], Lin) or (isinstance(a_[2], tuple) and a_[2][:1] == ("sym",)))):
+                                inter.unknown(show(a_))
+                                good = None
+                            elif M.origin(a_[1])[1] != want_base or lin(a_[2]) - var != Lin(c=i_):
+                                good = False if good is not None else None
+                    if good is False or (good and (step_v != Lin(c=len(pairs)) or lo_v != Lin())):
+                        inter.bad({"pairs of a line": [show(a_) for x in pairs for a_ in x[2]], "loop": show(hd.d.get("iter"))})
+                    elif good:
+                        ups.add(hi_v)
+                        extent_ok(hi_v, hd.facts)
+                    continue
                 if ln and ln[0][0] == "vec":
                     nvec += 1
                     e = ln[0][1]
@@ -885,9 +952,20 @@ def r1_templates(ctx):
     _grids(ctx, once)
 
 
+def _escapes(E, value, before):
+    """the value is handed to a call that is not followed (a method of a class, a function of another module) before `before`: whatever it is
+    checked for there is not visible"""
+    for e in E.events("call"):
+        if e.seq < before.seq and not is_vecwrite(e) and e.d["attr"] != "format":
+            if any(a == value for a in list(e.d["args"]) + list(e.d["kws"].values())):
+                return True
+    return False
+
+
 def _grids(ctx, once):
     fn = ctx.src.func(BULK, "wtgrids")
     E = engine(ctx, BULK, "wtgrids")
+    Ep0 = E
     form = ("sym", "form")
     vec = [e for e in E.events("call") if is_vecwrite(e)]
     if not vec:
@@ -912,6 +990,8 @@ def _grids(ctx, once):
     for e in vec:
         vals, fine = _arm_value(X, e.facts, (8, 16))
         reach |= vals
+        if not fine and _escapes(Ep0, form, e):
+            fine = None
         if fine is None:
             g.unknown({"a test on the rendered length that cannot be evaluated": [show(t) for t, _ in e.facts if M.mentions(t, X)][:3]}, e.node)
         elif not fine:
@@ -1175,6 +1255,7 @@ def r2_nonempty_vector(ctx):
         return out
 
     nsites = 0
+    labelled = set()
     for q in holders:
         own = [id(c) for c in walk_no_nested(m.funcs[q]) if is_vw(c)]
         res, last = {}, {}      # call node -> rows: settled (every row has a verdict) / seen last (possibly not understood)
@@ -1203,10 +1284,26 @@ def r2_nonempty_vector(ctx):
         for nid in own:
             for label, verdict, inst, detail, node, key in res.get(nid) or last.get(nid) or []:
                 nsites += 1
+                labelled.add((owner(q), label.strip(" []")))
                 if verdict is None:
                     ctx.error(inst, node, detail)
                 else:
                     ctx.check(verdict, inst, node, detail, key=key)
+    # a table writer that does not reach a vectorised write at all (its full lines are written one by one) has nothing that could be handed an
+    # empty vector: the contract holds vacuously for both of its field widths
+    if "wttabled1" in pubs:
+        q = "wttabled1"
+        try:
+            A = _tabled1_analysis(ctx)
+        except (AnchorError, Unsupported):
+            A = None
+        for label, pairw in (("large field", 32), ("small field", 16)):
+            if (q, label) in labelled or A is None:
+                continue
+            arm = A["arms"].get(pairw) or []
+            if arm and not any(ln and ln[0][0] == "vec" for _, (lines, _) in arm for ln in lines):
+                nsites += 1
+                ctx.ok(f"{q} [{label}]: no vectorised write is reached for this field width (nothing can be handed an empty vector)", pubs[q], nontrivial=False)
     ctx.assume("C13-R2: the sequences handed to the writers have at least one entry (the property quantifies over lengths 1..n)")
     if nsites >= 2:
         ctx.ok(f"non-empty vector contract bound to {nsites} call sites", BULK + ":1", nontrivial=False)
@@ -1707,32 +1804,15 @@ def _dmig(ctx):
             v.unknown(f"matrix type {show(mt)}")
             continue
         k = M.ival(mt)
-        vals = [(x[0], None, x[1]) if x[0] == "str" else x for x in e.d["args"][0].p
-                if (x[0] == "fv" and not isinstance(x[2], Lin) and _has_float(x[2])) or (x[0] == "str" and _has_float(x[1]))]
-        inline_specs = []
-        _float_specs(S(tuple(x for x in e.d["args"][0].p if x[0] == "fv" and isinstance(M.parse_spec(x[1] or ""), M.Spec)
-                             and M.parse_spec(x[1] or "").type in ("e", "E", "f", "F", "g", "G"))), inline_specs, None)
-        if len(vals) == 1 and not inline_specs:
-            val = vals[0][2]
-            rep = isinstance(val, tuple) and val[:2] == ("op", ".replace") and len(val[2]) == 3
-            if rep and not (isinstance(val[2][1], S) and isinstance(val[2][2], S) and val[2][1].text() is not None and val[2][2].text() is not None):
-                v.unknown(show(val))
-                continue
-            rep = (val[2][1].text(), val[2][2].text()) if rep else None
-            inner = val[2][0] if rep else val
-            specs = []
-            _float_specs(inner if isinstance(inner, S) else None, specs, None)
-        elif inline_specs and not vals:
-            rep = None
-            specs = inline_specs
-        else:
+        # every number rendered with a floating-point spec in the term line, with the replacements applied to the text it sits in
+        # ("...E+05".replace("E", "D")), wherever they are applied: to the whole number string, to each part, through a variable
+        rend = _renderings(e.d["args"][0])
+        if rend is None or not rend:
             v.unknown(repr(e.d["args"][0]))
             continue
-        if not specs:
-            v.unknown(repr(e.d["args"][0]))
-            continue
+        specs = [sp for sp, _ in rend]
         kinds.add(k)
-        letters = {(rep[1] if rep and sp.type == rep[0] else sp.type) for sp, *_ in specs}
+        letters = {lt for _, lt in rend}
         want_letter = "D" if k % 2 == 0 else "E"
         if letters != {want_letter} and not (letters == {"e"} and want_letter == "E"):
             v.bad({"mtype": k, "exponent letter written": sorted(letters), "expected": want_letter})
@@ -1913,7 +1993,8 @@ def _dmig_membership(ctx, Er, prim, rd):
                 def fields_of(o):
                     out = set()
                     for a in flat(puts.get(o, [])):
-                        if isinstance(a, tuple) and a[:1] == ("elem",) and not isinstance(a[2], tuple) and isinstance(a[1], tuple) and a[1][:1] == ("elem",):
+                        if isinstance(a, tuple) and a[:1] == ("elem",) and not isinstance(a[2], tuple) and isinstance(a[1], tuple) \
+                                and (a[1][:1] in (("elem",), ("sym",)) or (a[1][:1] == ("op",) and a[1] not in _objects(a[1]))):
                             lids = [int(t_[1].rsplit("@L", 1)[1]) for t_ in lin(a[2]).t if isinstance(t_, tuple) and t_[:1] == ("sym",) and "@L" in t_[1]
                                     and t_[1].rsplit("@L", 1)[1].isdigit()]
                             af = _affine(a[2], Er, lids[0]) if lids else _affine(a[2], Er, -1)
@@ -2089,6 +2170,39 @@ class _AsRange:
         self.node, self.facts, self.loops, self.kind = head.node, head.facts, head.loops, head.kind
 
 
+def _renderings(v, reps=()):
+    """[(Spec, exponent letter that ends up in the text)] of the numbers rendered with a floating-point spec inside a written value; `reps`: the
+    (old, new) text replacements applied to the enclosing string, innermost first.  None when a replacement is not a literal."""
+    out = []
+    if isinstance(v, S):
+        for x in v.p:
+            if x[0] == "fv":
+                sp = M.parse_spec(x[1]) if x[1] is not None else None
+                if sp is not None and sp.type in ("e", "E", "f", "F", "g", "G") and sp.width is not None and not isinstance(x[2], S):
+                    letter = sp.type
+                    for a, b in reps:
+                        if letter == a:
+                            letter = b
+                    out.append((sp, letter))
+                elif isinstance(x[2], (S, tuple)):
+                    r = _renderings(x[2], reps)
+                    if r is None:
+                        return None
+                    out.extend(r)
+            elif x[0] == "str":
+                r = _renderings(x[1], reps)
+                if r is None:
+                    return None
+                out.extend(r)
+        return out
+    if isinstance(v, tuple) and v[:2] == ("op", ".replace") and len(v[2]) == 3:
+        a, b = v[2][1], v[2][2]
+        if not (isinstance(a, S) and isinstance(b, S) and a.text() is not None and b.text() is not None):
+            return None if _formatted_numbers(v[2][0]) else []
+        return _renderings(v[2][0], ((a.text(), b.text()),) + tuple(reps))
+    return out
+
+
 def _formatted_numbers(v):
     """the values rendered with a floating-point spec in a written string (through `.replace`, nested strings, ...)"""
     out = []
@@ -2105,6 +2219,14 @@ def _formatted_numbers(v):
     elif isinstance(v, tuple) and v[:2] == ("op", ".replace") and v[2]:
         out.extend(_formatted_numbers(v[2][0]))
     return out
+
+
+def _counted_loop_step(head):
+    """(variable, first, end, step) of `for v in range(first, end, step)` or the counted `while` that spells it"""
+    it, tgt = head.d.get("iter"), head.d.get("target")
+    if isinstance(it, tuple) and it[:1] == ("range",) and isinstance(tgt, Lin) and M.is_int_const(it[3]) and M.ival(it[3]) >= 1:
+        return tgt, lin(it[1]), lin(it[2]), lin(it[3])
+    return None
 
 
 def _excludes(facts, x, k):
@@ -2562,20 +2684,20 @@ def _related(syms, facts=()):
             base = b[1] if isinstance(b, tuple) and b[:1] in (("len",), ("dim",)) else b
             if root(base) == op:
                 continue                    # two properties of the same object (its length and its width) are independent
-            if any(M.mentions(x, base) for x in op[2:] if isinstance(x, (tuple, Lin, S))):
+            if any(M.mentions(x, base) for x in op[1:] if isinstance(x, (tuple, Lin, S))):
                 return True
     return False
 
 
 def _derived(at):
-    """an atom that stands for a property (length, dimension, element) of the result of an opaque call"""
-    def opaque(v):
-        if isinstance(v, tuple) and v[:1] == ("op",):
-            return True
-        if isinstance(v, tuple) and v[:1] in (("elem",), ("slice",), ("attr",)):
-            return opaque(v[1])
+    """an atom that stands for a property (length, dimension) of something computed: the result of a call, a range, a comprehension, ... -
+    anything but a plain variable"""
+    if not (isinstance(at, tuple) and at[:1] in (("len",), ("dim",))):
         return False
-    return isinstance(at, tuple) and at[:1] in (("len",), ("dim",)) and opaque(at[1])
+    v = at[1]
+    while isinstance(v, tuple) and v[:1] in (("elem",), ("slice",), ("attr",)):
+        v = v[1]
+    return not (isinstance(v, tuple) and v[:1] == ("sym",))
 
 
 def _tiling(ctx, E, q, seq, fn):
@@ -2602,11 +2724,33 @@ def _tiling(ctx, E, q, seq, fn):
         loop_info = {}
         for e in s.events:
             if e.kind == "while":
-                # induction hypothesis: at the head of the loop the counter equals the position written so far
-                cnt = [nm for nm, x in e.d["pre"].items() if isinstance(x, Lin) and x == wp]
-                if cnt:
-                    loop_entry[e.d["loop"]] = cnt[0]
-                    wp = lin(e.d["env"][cnt[0]])
+                # induction over the passes: the position the writes of a pass start at is a function pos(c) of one loop variable c (the position itself,
+                # `n - left` for a count of what is left, ...); base case pos(c before the loop) = what has been written so far; a pass must end
+                # where pos(c after the pass) says the next one starts; after the loop the position is pos(c at the exit)
+                lid = e.d["loop"]
+                inside = [_int_records(E, x, seq, N) for x in s.events if lid in x.loops and x.kind in ("format", "call")]
+                inside = [x for x in inside if x is not None]
+                cands = []
+                if inside and "unknown" not in inside[0]:
+                    a0 = inside[0]["a"]
+                    for nm, x in sorted(e.d["env"].items()):
+                        symc = x if isinstance(x, tuple) and x[:1] == ("sym",) else None
+                        pre_ = e.d["pre"].get(nm)
+                        if symc is None or not (isinstance(pre_, Lin) or (isinstance(pre_, tuple) and pre_[:1] == ("sym",))) or not M.mentions(a0, symc):
+                            continue
+                        if any(M.mentions(a0, y) for nm2, y in e.d["env"].items() if nm2 != nm and isinstance(y, tuple) and y[:1] == ("sym",)):
+                            continue            # the position depends on several loop variables
+                        if _differs(lin(M.subst(a0, symc, lin(pre_))) - wp, e.facts)[0] is False:
+                            cands.append((nm, symc, a0))
+                if cands:
+                    nm, symc, a0 = cands[0]
+                    loop_entry[lid] = (nm, symc, a0)
+                    wp = a0
+                elif inside or any(x.kind == "call" and x.d["attr"] == "write" and lid in x.loops for x in s.events):
+                    v.unknown({"loop": show(e.d["test"])[:120], "position written first in a pass": show(inside[0].get("a")) if inside and "a" in inside[0] else None,
+                               "written before the loop up to": show(wp)}, e.node)
+                    wp = None
+                    break
             elif e.kind == "for" and isinstance(e.d["iter"], tuple) and e.d["iter"][:1] == ("range",) and isinstance(e.d["target"], Lin):
                 # for k in range(lo, N, step): each pass must write [k, min(k + step, N))
                 it = e.d["iter"]
@@ -2667,14 +2811,16 @@ def _tiling(ctx, E, q, seq, fn):
                 wp = whole if r is False else after
                 info["exact"] = r is False
             elif e.kind == "loopend" and e.d["loop"] in loop_entry:
-                nm = loop_entry[e.d["loop"]]
-                r, w = _differs(lin(e.d["env"][nm]) - wp, e.facts)
+                nm, symc, a0 = loop_entry[e.d["loop"]]
+                nxt_ = lin(M.subst(a0, symc, lin(e.d["env"][nm])))
+                r, w = _differs(nxt_ - wp, e.facts)
                 if r is True:
-                    v.bad({"loop counter after one pass": show(e.d["env"][nm]), "written up to": show(wp), "differ for": w}, e.node)
+                    v.bad({"the next pass starts at": show(nxt_), "written up to": show(wp), "differ for": w}, e.node)
                 elif r is None:
-                    v.unknown({"loop counter after one pass": show(e.d["env"][nm]), "written up to": show(wp)}, e.node)
+                    v.unknown({"the next pass starts at": show(nxt_), "written up to": show(wp)}, e.node)
             elif e.kind == "loopexit" and e.d["loop"] in loop_entry:
-                wp = lin(e.d["env"][loop_entry[e.d["loop"]]])
+                nm, symc, a0 = loop_entry[e.d["loop"]]
+                wp = lin(M.subst(a0, symc, lin(e.d["env"][nm])))
             elif e.kind == "loopexit" and e.d["loop"] in loop_info and "ran" in e.d:
                 info = loop_info[e.d["loop"]]
                 if e.d["ran"] is False:
@@ -2734,6 +2880,7 @@ def _thru(ctx, q, required=True):
     seq = ("sym", seqname)
     v = V().at(whiles[0].node)
     runs = singles = 0
+    cursors = {}
     for s_end in E.events("loopend"):
         lid = s_end.d["loop"]
         w = [e for e in whiles if e.d["loop"] == lid]
@@ -2768,6 +2915,7 @@ def _thru(ctx, q, required=True):
             (v.bad if pre.is_const() else v.unknown)({"the cursor starts at": show(pre), "expected": "0 (the first element)"}, w.node)
         elif not isinstance(pre, Lin):
             v.unknown({"the cursor starts at": show(pre)}, w.node)
+        cursors[lid] = (nm, off)
         if thru:
             runs += 1
         else:
@@ -2782,6 +2930,25 @@ def _thru(ctx, q, required=True):
                    "differ for": wit, "consequence": "the elements in between are never written (or written twice)"}, emitted[-1][0].node)
         elif r is None:
             v.unknown({"cursor advanced to": show(new), "should be": show(want)}, s_end.node)
+    # the loop goes on until the cursor is past the last element of the sequence the writer was given (not of a part of it)
+    N = lin(("len", seq))
+    for x in E.events("loopexit"):
+        if x.d["loop"] in cursors and x.d.get("by") != "break" and not x.loops:
+            nm, off = cursors[x.d["loop"]]
+            pos = x.d["env"].get(nm)
+            if not (isinstance(pos, Lin) or (isinstance(pos, tuple) and pos[:1] == ("sym",))):
+                v.unknown({"the cursor after the loop": show(pos)}, x.node)
+                continue
+            pos = lin(pos) + off
+            lo, _ = M.bounds(pos - N, x.facts)
+            if lo is not None and lo >= 0:
+                continue
+            syms = M.free_symbols(pos - N)
+            wit = _witness(syms, x.facts, lambda a_, d_=pos - N: (M.lin_eval(d_, a_) is not None and M.lin_eval(d_, a_) < 0), limit=12) if len(syms) <= 3 else None
+            if wit is not None:
+                v.bad({"the loop ends with the cursor at": show(pos), "elements of " + seqname: show(N), "elements never written for": {show(k): x_ for k, x_ in wit.items()}}, x.node)
+            else:
+                v.unknown({"the loop ends with the cursor at": show(pos), "elements of " + seqname: show(N)}, x.node)
     if v.v is True and not (runs >= 1 and singles >= 1):
         v.unknown({"passes with THRU": runs, "passes with a single element": singles})
     v.report(ctx, f"{q}: each pass writes {seqname}[start] (or {seqname}[start] THRU {seqname}[end]) and moves the cursor just past what it wrote, "
